@@ -90,8 +90,8 @@ Print Assumptions source_tie_backends.
    (Generated/LibApi.v: g_request_with_config_body / g_response_with_config_body -- `mem::take(&mut self.headers)`,
    the pointer casts, the call of the core with its Result as a value, `self.headers = ..` in the non-Complete arm)
    and proved equal to Api.request_with_config / response_with_config, which the entry-point theorems above are
-   about; the remaining delegations (parse, ParserConfig::parse_*, *_with_uninit_headers, new) are one expression
-   each and pinned by token text ---- *)
+   about; the remaining delegations (parse, ParserConfig::parse_*, *_with_uninit_headers) are one expression each and
+   translated too (G14, below); only the constructor `new` is pinned by token text ---- *)
 From HV Require Import Imp.
 From HV.Generated Require Import LibApi.
 From HV.Proofs Require Import TieReq TieResp.
@@ -110,3 +110,22 @@ Proof.
   - apply tie_response_with_config. exact HE.
 Qed.
 Print Assumptions with_config_wrappers_as_translated.
+
+(* ---- the seven one-expression delegations, translated from /repo/src/lib.rs on this run (Generated/LibApi.v, G14:
+   receiver, callee and each argument read from the source; arguments matched to the callee's parameters by the
+   callee's own parameter names), are exactly the routes `source_tie` takes: every entry point hands its buffer, its
+   array and ITS configuration (the default one for `parse` / `parse_with_uninit_headers`) to `parse_with_config` (Xw)
+   or `parse_with_config_and_uninit_headers` (Xc) of its kind, and nothing else.  A delegation that drops the caller's
+   configuration, swaps two arguments or forwards to another entry point translates to another term and breaks this
+   theorem and `source_tie` ---- *)
+Theorem delegations_as_translated : forall (V R : Type) (Xw : config -> list N -> V -> R)
+    (Xc : config -> list N -> V -> list slot -> R) cf buf v arr,
+  gd_request_parse Xw Xc buf v = Xw config_default buf v /\
+  gd_response_parse Xw Xc buf v = Xw config_default buf v /\
+  gd_parse_request Xw Xc cf buf v = Xw cf buf v /\
+  gd_parse_response Xw Xc cf buf v = Xw cf buf v /\
+  gd_request_parse_with_uninit_headers Xw Xc buf v arr = Xc config_default buf v arr /\
+  gd_parse_request_with_uninit_headers Xw Xc cf buf v arr = Xc cf buf v arr /\
+  gd_parse_response_with_uninit_headers Xw Xc cf buf v arr = Xc cf buf v arr.
+Proof. intros. repeat split; reflexivity. Qed.
+Print Assumptions delegations_as_translated.
